@@ -1,6 +1,7 @@
 import Utv.Model.C18
 import Utv.Lemmas.C18
 import Utv.Lemmas.C18Cost
+import Utv.Lemmas.C18Unamb
 /-!
 C18 — the depth limit is exact and parse cost stays bounded.
 
@@ -1164,5 +1165,424 @@ example : ∀ y m,
   intro y m h
   refine .data 0 _ _ "kids" (.list (.data 0)) _ m rfl rfl rfl ?_
   exact .listMem _ _ _ m (by simp) h
+
+end Utv.C18
+
+namespace Utv.C18
+
+/-! ### verdict-level biconditional for declarations whose unions cannot be read in two ways
+
+With two container alternatives in one union (`Union[A, B]`, `Union[Node, Dict[str, Any]]`) the limited parser may
+fall through to the other alternative when the first one is too deep — the limit then changes the *reading*, and
+"the" nesting depth of the value is not defined.  When every union has at most one container alternative
+(`envUnamb`, decidable: `Optional[T]`, `Union[Node, int, None]`, …) the limited parser reads the value exactly as the
+unlimited one does, and the property's biconditional holds verbatim on verdicts. -/
+
+/-- a value that is not a container never yields a data-class instance -/
+def ScalarFree (rec : Parser) : Prop :=
+  ∀ c T v r, isScalarVal v = true → (rec c T v).1 = .ok r → rdepth r = 0
+
+structure Rel2 (pd pu : Parser) : Prop where
+  /-- leaf / None types do not look at depth -/
+  scalarEq : ∀ c c' T v, isScalarTy T = true → c.mode = c'.mode → (pd c T v).1 = (pu c' T v).1
+  /-- … and accept only scalars -/
+  scalarAcc : ∀ c T v r, isScalarTy T = true → (pd c T v).1 = .ok r → isScalarVal v = true
+  /-- the limited run reads the value as the unlimited one -/
+  agree : ∀ c c' T v r, unamb T = true → c.depth = c'.depth → c.mode = c'.mode →
+    (pd c T v).1 = .ok r → (pu c' T v).1 = .ok r
+  /-- where only the limit rejects, it rejects under every preference -/
+  deep : ∀ c c' T v, unamb T = true → c.depth = c'.depth → c.mode = c'.mode →
+    (pd c T v).1.isOk = false → (pu c' T v).1.isOk = true → ∀ c2, c2.depth = c.depth → (pd c2 T v).1.isOk = false
+
+section
+variable {W : World} {Q : Quirks} {E : Env} {rec pd pu : Parser}
+
+theorem attempt_fixed (hQ : Q.falsyRoute = false) (c : Ctx) (v : Val) (mt : Mode × Ty) :
+    attempt Q rec c v mt = rec { c with mode := mt.1 } mt.2 v := by
+  simp [attempt, enter_fixed Q hQ, inCtx]
+
+theorem items_scalarFree (h : ScalarFree rec) (c : Ctx) (t : Ty) (vs : List Val) (rs : List Res)
+    (hvs : ∀ x ∈ vs, isScalarVal x = true) (hrs : (parseItems Q rec c t vs).1 = .ok rs) : rdepthL rs = 0 := by
+  apply rdepthL_zero
+  intro r' hr'
+  obtain ⟨iv, hiv, hp⟩ := seqM_res_mem _ _ rs hrs r' hr'
+  obtain ⟨c', _, h2⟩ := inCtx_ok _ _ r' hp
+  exact h c' t iv.2 r' (hvs iv.2 (indexed_mem vs 0 iv.1 iv.2 hiv)) h2
+
+theorem step_scalarFree (h : ScalarFree rec) : ScalarFree (step W Q E rec) := by
+  intro c T v r hv hr
+  cases T with
+  | leaf =>
+    simp only [step] at hr
+    cases v with
+    | tok n =>
+      by_cases hl : W.leafOk c.mode n = true
+      · simp only [hl, if_true, Out.ok.injEq] at hr; subst hr; rfl
+      · simp [hl] at hr
+    | none => cases hr
+    | list vs => cases hr
+    | dict kvs => cases hr
+  | none =>
+    simp only [step] at hr
+    cases v with
+    | none => simp only [Out.ok.injEq] at hr; subst hr; rfl
+    | tok n => cases hr
+    | list vs => cases hr
+    | dict kvs => cases hr
+  | data k =>
+    simp only [step] at hr
+    cases hk : E[k]? with
+    | none => simp [hk] at hr
+    | some cd =>
+      simp only [hk] at hr
+      split at hr
+      · cases hr
+      · cases v with
+        | tok n => cases hr
+        | none => cases hr
+        | list l => simp [isScalarVal] at hv
+        | dict kvs => simp [isScalarVal] at hv
+  | list t =>
+    simp only [step] at hr
+    cases hw : wrapSeq c.mode v with
+    | none => simp [hw] at hr
+    | some vs =>
+      simp only [hw] at hr
+      obtain ⟨rs, hrs, rfl⟩ := (mapOut_fst_ok _ _ r).1 hr
+      simp only [rdepth]
+      exact items_scalarFree h c t vs rs (wrapSeq_scalar _ v vs hv hw) hrs
+  | tuple t =>
+    simp only [step] at hr
+    cases hw : wrapSeq c.mode v with
+    | none => simp [hw] at hr
+    | some vs =>
+      simp only [hw] at hr
+      obtain ⟨rs, hrs, rfl⟩ := (mapOut_fst_ok _ _ r).1 hr
+      simp only [rdepth]
+      exact items_scalarFree h c t vs rs (wrapSeq_scalar _ v vs hv hw) hrs
+  | dict kt t =>
+    simp only [step] at hr
+    cases v with
+    | tok n => cases hr
+    | none => cases hr
+    | list l => simp [isScalarVal] at hv
+    | dict kvs => simp [isScalarVal] at hv
+  | union ts =>
+    simp only [step] at hr
+    by_cases hs : (isNoneVal v && hasNone ts) = true
+    · simp only [parseUnion, hs, if_true, Out.ok.injEq] at hr
+      subst hr; rfl
+    · have hs' : (isNoneVal v && hasNone ts) = false := by simpa using hs
+      rw [parseUnion_flat Q rec c ts v hs'] at hr
+      obtain ⟨mt, _, hp⟩ := tryAll_ok_mem _ _ _ r hr
+      obtain ⟨c', _, h2⟩ := inCtx_ok _ _ r hp
+      exact h c' mt.2 v r hv h2
+
+theorem mapOut_agree {β γ} (g : β → γ) (o o' : Out β × Nat) (h : ∀ b, o.1 = .ok b → o'.1 = .ok b) (c : γ)
+    (hc : (mapOut g o).1 = .ok c) : (mapOut g o').1 = .ok c := by
+  obtain ⟨b, hb, rfl⟩ := (mapOut_fst_ok g o c).1 hc
+  exact (mapOut_fst_ok g o' _).2 ⟨b, h b hb, rfl⟩
+
+theorem isOk_false_of_not_ok {β} (o : Out β) (h : ∀ b, o ≠ .ok b) : o.isOk = false := by
+  cases o with
+  | ok b => exact absurd rfl (h b)
+  | err f => rfl
+
+theorem isOk_true_iff {β} (o : Out β) : o.isOk = true ↔ ∃ b, o = .ok b := by
+  cases o with
+  | ok b => simp [Out.isOk]
+  | err f => simp [Out.isOk]
+
+theorem envUnamb_field (hE : envUnamb E = true) (k : Nat) (cd : ClassDecl) (hk : E[k]? = some cd) :
+    ∀ ft ∈ cd.fields, unamb ft.2 = true := by
+  have hmem : cd ∈ E := List.mem_of_getElem? hk
+  simp only [envUnamb, List.all_eq_true] at hE
+  exact fun ft hft => hE cd hmem ft hft
+
+/-- one layer of `Rel2` -/
+theorem step_rel2 (hQ : Q.falsyRoute = false) (hE : envUnamb E = true) (hrel : Rel E pd pu)
+    (hsf : ScalarFree pu) (h2 : Rel2 pd pu) :
+    Rel2 (step W Q E pd) (step W Q (unlimited E) pu) := by
+  -- scalars are read alike
+  have scalarIn : ∀ c c' T v r, isScalarVal v = true → c.depth = c'.depth → c.mode = c'.mode →
+      (pu c' T v).1 = .ok r → (pd c T v).1 = .ok r := fun c c' T v r hv hd hm h =>
+    (hrel c c' T v hd hm).2 r h (within_of_rdepth_zero E _ r (hsf c' T v r hv h))
+  -- the items of a sequence
+  have items_agree : ∀ (c c' : Ctx) (t : Ty) (vs : List Val) (rs : List Res), unamb t = true →
+      c.depth = c'.depth → c.mode = c'.mode →
+      (parseItems Q pd c t vs).1 = .ok rs → (parseItems Q pu c' t vs).1 = .ok rs := by
+    intro c c' t vs rs ht hd hm h
+    simp only [parseItems, enter_fixed Q hQ, inCtx] at h ⊢
+    exact seqM_agree _ _ _ (fun iv _ b hb => h2.agree _ _ t iv.2 b ht hd (by simp [hm]) hb) rs h
+  have items_deep : ∀ (c c' : Ctx) (t : Ty) (vs : List Val), unamb t = true →
+      c.depth = c'.depth → c.mode = c'.mode →
+      (parseItems Q pd c t vs).1.isOk = false → (parseItems Q pu c' t vs).1.isOk = true →
+      ∃ x ∈ vs, ∀ c2 : Ctx, c2.depth = c.depth → (pd c2 t x).1.isOk = false := by
+    intro c c' t vs ht hd hm hfail hok
+    simp only [parseItems, enter_fixed Q hQ, inCtx] at hfail hok
+    obtain ⟨iv, hiv, hbad⟩ := seqM_err_mem _ _ hfail
+    obtain ⟨rs, hrs⟩ := (isOk_true_iff _).1 hok
+    obtain ⟨b, _, hb⟩ := seqM_ok_mem _ _ rs hrs iv hiv
+    refine ⟨iv.2, indexed_mem vs 0 iv.1 iv.2 hiv, ?_⟩
+    exact h2.deep _ _ t iv.2 ht hd (by simp [hm]) hbad (by rw [hb]; rfl)
+  have items_fail : ∀ (c2 : Ctx) (t : Ty) (vs : List Val) (x : Val), x ∈ vs →
+      (∀ c3 : Ctx, c3.depth = c2.depth → (pd c3 t x).1.isOk = false) →
+      (parseItems Q pd c2 t vs).1.isOk = false := by
+    intro c2 t vs x hx hbad
+    obtain ⟨j, hj⟩ := mem_indexed vs 0 x hx
+    simp only [parseItems, enter_fixed Q hQ, inCtx]
+    exact seqM_err_of_mem _ _ (j, x) hj (hbad _ rfl)
+  constructor
+  · -- scalarEq
+    intro c c' T v hT hm
+    cases T with
+    | leaf => simp only [step, hm]
+    | none => simp only [step]
+    | data k => simp [isScalarTy] at hT
+    | list t => simp [isScalarTy] at hT
+    | tuple t => simp [isScalarTy] at hT
+    | dict kt t => simp [isScalarTy] at hT
+    | union ts => simp [isScalarTy] at hT
+  · -- scalarAcc
+    intro c T v r hT hr
+    cases T with
+    | leaf => cases v <;> simp_all [step, isScalarVal]
+    | none => cases v <;> simp_all [step, isScalarVal]
+    | data k => simp [isScalarTy] at hT
+    | list t => simp [isScalarTy] at hT
+    | tuple t => simp [isScalarTy] at hT
+    | dict kt t => simp [isScalarTy] at hT
+    | union ts => simp [isScalarTy] at hT
+  · -- agree
+    intro c c' T v r hT hd hm hr
+    cases T with
+    | leaf => simp only [step, ← hm]; simpa only [step] using hr
+    | none => simp only [step]; simpa only [step] using hr
+    | data k =>
+      simp only [step, unlimited_get] at hr ⊢
+      cases hk : E[k]? with
+      | none => simp [hk] at hr
+      | some cd =>
+        have hf := envUnamb_field hE k cd hk
+        simp only [hk, Option.map_some, exceeded_none, Bool.false_eq_true, if_false] at hr ⊢
+        split at hr
+        · cases hr
+        · cases v with
+          | tok n => cases hr
+          | none => cases hr
+          | list l => cases hr
+          | dict kvs =>
+            simp only at hr ⊢
+            refine mapOut_agree _ _ _ ?_ r hr
+            intro fs hfs
+            have hfield : ∀ (t : Ty) (fv : Val) (b : Res), unamb t = true →
+                (parseField Q pd ⟨c.depth + 1, cd.mode, cd.maxDepth⟩ t fv).1 = .ok b →
+                (parseField Q pu ⟨c'.depth + 1, cd.mode, none⟩ t fv).1 = .ok b := by
+              intro t fv b ht hb
+              simp only [parseField, enter_fixed Q hQ, inCtx] at hb ⊢
+              exact h2.agree { depth := c.depth + 1, mode := cd.mode, md := cd.maxDepth }
+                { depth := c'.depth + 1, mode := cd.mode, md := none } t fv b ht (by simp [hd]) rfl hb
+            split at hfs
+            · simp only [parseDF] at hfs ⊢
+              rename_i hdfs
+              simp only [hdfs, if_true]
+              refine mapOut_agree _ _ _ ?_ fs hfs
+              intro rs hrs
+              refine seqM_agree _ _ _ ?_ rs hrs
+              intro it hit b hb
+              exact mapOut_agree _ _ _ (fun b' hb' =>
+                hfield it.2.1 it.2.2 b' (hf (it.1, it.2.1) (knownItems_field _ _ it hit)) hb') b hb
+            · rename_i hdfs
+              simp only [hdfs, Bool.false_eq_true, if_false]
+              simp only [parseFF] at hfs ⊢
+              refine seqM_agree _ _ _ ?_ fs hfs
+              intro ft hft b hb
+              cases hl : lookupKey (Key.str ft.1) kvs with
+              | none => simpa [hl] using hb
+              | some fv =>
+                simp only [hl] at hb ⊢
+                exact mapOut_agree _ _ _ (fun b' hb' => hfield ft.2 fv b' (hf ft hft) hb') b hb
+    | list t =>
+      simp only [unamb] at hT
+      simp only [step, ← hm] at hr ⊢
+      cases hw : wrapSeq c.mode v with
+      | none => simp [hw] at hr
+      | some vs =>
+        simp only [hw] at hr ⊢
+        exact mapOut_agree _ _ _ (fun rs hrs => items_agree c c' t vs rs hT hd hm hrs) r hr
+    | tuple t =>
+      simp only [unamb] at hT
+      simp only [step, ← hm] at hr ⊢
+      cases hw : wrapSeq c.mode v with
+      | none => simp [hw] at hr
+      | some vs =>
+        simp only [hw] at hr ⊢
+        exact mapOut_agree _ _ _ (fun rs hrs => items_agree c c' t vs rs hT hd hm hrs) r hr
+    | dict kt t =>
+      simp only [unamb] at hT
+      simp only [step] at hr ⊢
+      cases v with
+      | tok n => cases hr
+      | none => cases hr
+      | list l => cases hr
+      | dict kvs =>
+        simp only at hr ⊢
+        refine mapOut_agree _ _ _ ?_ r hr
+        intro rs hrs
+        simp only [parseEntries, enter_fixed Q hQ, inCtx] at hrs ⊢
+        refine seqM_agree _ _ _ ?_ rs hrs
+        intro kv _ b hb
+        by_cases hk : kt.admits kv.1 = true
+        · simp only [hk, Bool.not_true, Bool.false_eq_true, if_false] at hb ⊢
+          exact mapOut_agree _ _ _ (fun b' hb' => h2.agree _ _ t kv.2 b' hT hd (by simp [hm]) hb') b hb
+        · simp [hk] at hb
+    | union ts =>
+      simp only [unamb, Bool.and_eq_true, decide_eq_true_eq] at hT
+      simp only [step] at hr ⊢
+      by_cases hs : (isNoneVal v && hasNone ts) = true
+      · simp only [parseUnion, hs, if_true] at hr ⊢
+        exact hr
+      · have hs' : (isNoneVal v && hasNone ts) = false := by simpa using hs
+        rw [parseUnion_flat Q _ _ ts v hs'] at hr ⊢
+        rw [← hm]
+        obtain ⟨astar, hastar, hpstar⟩ := tryAll_ok_mem _ _ _ r hr
+        refine tryAll_agree _ _ _ _ _ ?_ ?_ r hr
+        · intro a ha b hb
+          rw [attempt_fixed hQ] at hb ⊢
+          exact h2.agree { c with mode := a.1 } { c' with mode := a.1 } a.2 v b
+            (unambL_mem ts hT.1 a.2 (attempts_mem _ _ a ha)) hd rfl hb
+        · intro a ha hbad
+          rw [attempt_fixed hQ] at hbad ⊢
+          rw [attempt_fixed hQ] at hpstar
+          apply isOk_false_of_not_ok
+          intro b hb
+          have hta := attempts_mem _ _ a ha
+          have htstar := attempts_mem _ _ astar hastar
+          by_cases hsa : isScalarTy a.2 = true
+          · have := h2.scalarEq { c with mode := a.1 } { c' with mode := a.1 } a.2 v hsa rfl
+            rw [this, hb] at hbad; cases hbad
+          · by_cases hsv : isScalarVal v = true
+            · have := scalarIn { c with mode := a.1 } { c' with mode := a.1 } a.2 v b hsv hd rfl hb
+              rw [this] at hbad; cases hbad
+            · by_cases hss : isScalarTy astar.2 = true
+              · exact hsv (h2.scalarAcc _ astar.2 v r hss hpstar)
+              · have heq : a.2 = astar.2 := container_unique ts hT.2 a.2 astar.2 hta htstar
+                  (by simpa using hsa) (by simpa using hss)
+                have hdeep := h2.deep { c with mode := a.1 } { c' with mode := a.1 } a.2 v
+                  (unambL_mem ts hT.1 a.2 hta) hd rfl hbad (by rw [hb]; rfl)
+                  { c with mode := astar.1 } rfl
+                rw [heq, hpstar] at hdeep
+                cases hdeep
+  · -- deep
+    intro c c' T v hT hd hm hfail hok c2 hc2
+    cases T with
+    | leaf =>
+      have : (step W Q E pd c Ty.leaf v).1 = (step W Q (unlimited E) pu c' Ty.leaf v).1 := by
+        simp only [step, hm]
+      rw [this, hok] at hfail; cases hfail
+    | none =>
+      have : (step W Q E pd c Ty.none v).1 = (step W Q (unlimited E) pu c' Ty.none v).1 := by
+        simp only [step]
+      rw [this, hok] at hfail; cases hfail
+    | data k =>
+      have : step W Q E pd c2 (Ty.data k) v = step W Q E pd c (Ty.data k) v := by
+        simp only [step, hc2]
+      rw [this]; exact hfail
+    | list t =>
+      simp only [unamb] at hT
+      simp only [step, ← hm] at hfail hok ⊢
+      cases hw : wrapSeq c.mode v with
+      | none => simp [hw, Out.isOk] at hok
+      | some vs =>
+        simp only [hw, mapOut_isOk] at hfail hok
+        obtain ⟨x, hx, hbad⟩ := items_deep c c' t vs hT hd hm hfail hok
+        cases hw2 : wrapSeq c2.mode v with
+        | none => rfl
+        | some vs2 =>
+          simp only [mapOut_isOk]
+          have := wrapSeq_indep _ _ v vs vs2 hw hw2
+          subst this
+          exact items_fail c2 t vs2 x hx (fun c3 hc3 => hbad c3 (by rw [hc3, hc2]))
+    | tuple t =>
+      simp only [unamb] at hT
+      simp only [step, ← hm] at hfail hok ⊢
+      cases hw : wrapSeq c.mode v with
+      | none => simp [hw, Out.isOk] at hok
+      | some vs =>
+        simp only [hw, mapOut_isOk] at hfail hok
+        obtain ⟨x, hx, hbad⟩ := items_deep c c' t vs hT hd hm hfail hok
+        cases hw2 : wrapSeq c2.mode v with
+        | none => rfl
+        | some vs2 =>
+          simp only [mapOut_isOk]
+          have := wrapSeq_indep _ _ v vs vs2 hw hw2
+          subst this
+          exact items_fail c2 t vs2 x hx (fun c3 hc3 => hbad c3 (by rw [hc3, hc2]))
+    | dict kt t =>
+      simp only [unamb] at hT
+      simp only [step] at hfail hok ⊢
+      cases v with
+      | tok n => rfl
+      | none => rfl
+      | list l => rfl
+      | dict kvs =>
+        simp only [mapOut_isOk] at hfail hok ⊢
+        simp only [parseEntries, enter_fixed Q hQ, inCtx] at hfail hok ⊢
+        obtain ⟨kv, hkv, hbad⟩ := seqM_err_mem _ _ hfail
+        obtain ⟨rs, hrs⟩ := (isOk_true_iff _).1 hok
+        obtain ⟨b, _, hb⟩ := seqM_ok_mem _ _ rs hrs kv hkv
+        refine seqM_err_of_mem _ _ kv hkv ?_
+        by_cases hk : kt.admits kv.1 = true
+        · simp only [hk, Bool.not_true, Bool.false_eq_true, if_false, mapOut_isOk] at hbad hb ⊢
+          have hb' : (pu { c' with mode := c'.mode } t kv.2).1.isOk = true := by
+            obtain ⟨r', hr', _⟩ := (mapOut_fst_ok _ _ b).1 hb
+            rw [hr']; rfl
+          exact h2.deep _ _ t kv.2 hT hd (by simp [hm]) hbad hb' _ (by simp [hc2])
+        · simp [hk] at hb
+    | union ts =>
+      simp only [unamb, Bool.and_eq_true, decide_eq_true_eq] at hT
+      simp only [step] at hfail hok ⊢
+      by_cases hs : (isNoneVal v && hasNone ts) = true
+      · simp [parseUnion, hs, Out.isOk] at hfail
+      · have hs' : (isNoneVal v && hasNone ts) = false := by simpa using hs
+        rw [parseUnion_flat Q _ _ ts v hs'] at hfail hok ⊢
+        rw [← hm] at hok
+        have hall := tryAll_err_all _ _ _ hfail
+        obtain ⟨r, hr⟩ := (isOk_true_iff _).1 hok
+        obtain ⟨a, ha, hpa⟩ := tryAll_ok_mem _ _ _ r hr
+        have hbad := hall a ha
+        rw [attempt_fixed hQ] at hbad hpa
+        have hta := attempts_mem _ _ a ha
+        have hsa : isScalarTy a.2 = false := by
+          by_cases hsa : isScalarTy a.2 = true
+          · have := h2.scalarEq { c with mode := a.1 } { c' with mode := a.1 } a.2 v hsa rfl
+            rw [this, hpa] at hbad; cases hbad
+          · simpa using hsa
+        have hsv : isScalarVal v = false := by
+          by_cases hsv : isScalarVal v = true
+          · have := scalarIn { c with mode := a.1 } { c' with mode := a.1 } a.2 v r hsv hd rfl hpa
+            rw [this] at hbad; cases hbad
+          · simpa using hsv
+        have hdeep := h2.deep { c with mode := a.1 } { c' with mode := a.1 } a.2 v
+          (unambL_mem ts hT.1 a.2 hta) hd rfl hbad (by rw [hpa]; rfl)
+        apply tryAll_all_err
+        intro b hb
+        rw [attempt_fixed hQ]
+        have htb := attempts_mem _ _ b hb
+        by_cases hsb : isScalarTy b.2 = true
+        · apply isOk_false_of_not_ok
+          intro r' hr'
+          have := h2.scalarAcc _ b.2 v r' hsb hr'
+          rw [hsv] at this; cases this
+        · have heq : b.2 = a.2 := container_unique ts hT.2 b.2 a.2 htb hta (by simpa using hsb) hsa
+          rw [heq]
+          exact hdeep _ (by simp [hc2])
+
+end
+
+theorem parse_scalarFree (W : World) (Q : Quirks) (E : Env) (fuel : Nat) : ScalarFree (parse W Q E fuel) := by
+  induction fuel with
+  | zero => intro c T v r _ h; simp [parse] at h
+  | succ n ih => exact step_scalarFree ih
 
 end Utv.C18
